@@ -163,7 +163,7 @@ def native_replay(case):
     for m in case.get("sidecars", []):
         importlib.import_module(m)
     c = REG.contracts[case["qualname"]]
-    modname, _, rest = case["qualname"].partition(":")
+    modname, _, rest = c.qualname.partition(":")
     module = importlib.import_module(modname)
     b = Builder(case["inputs"].get("objects", {}))
     params = {k: b.build(v) for k, v in case["inputs"]["params"].items()}
